@@ -92,6 +92,20 @@ def checkInit (idx : Nat) (what : String) (recs : Except Err (List Record)) (str
       else [s!"step {idx}: {what} raises {e'.name}, expected {e.name}"]
     | some e, _ => [s!"step {idx}: {what} accepts a collection that must be rejected with {e.name}"]
 
+/-- a lookup attribute read as a dict must be, as a function, the one computed from the observed
+records (C05: the derived structures mirror the records): every item is right and every key the
+records give rise to is present -/
+def checkLookup (idx : Nat) (o : SlotObs) (what : String) (items : List (Str × Str)) (keysOf : Record → List Str)
+    (want : List Record → Str → Option Str) : List String :=
+  match o.recs with
+  | none => []
+  | some recs =>
+    if !Spec.unique recs then [] else      -- a non-strict converter with clashes: last writer wins, not specified
+    (if items.all fun kv => want recs kv.1 == some kv.2 then []
+     else [s!"step {idx}: {what} holds an item that the observed records do not give rise to"]) ++
+    (if (recs.flatMap keysOf).all fun k => items.any fun kv => kv.1 == k then []
+     else [s!"step {idx}: {what} lacks a key that the observed records give rise to"])
+
 def checkStep (idx : Nat) (t : SlotTable) (st : Step) (obs : Val) : SlotTable × List String :=
   match st with
   | .remapCurie dst src rm =>
@@ -167,6 +181,11 @@ def checkStep (idx : Nat) (t : SlotTable) (st : Step) (obs : Val) : SlotTable ×
             | none => [])
       (t.put { o with recs := some l }, errs)
     | "delimiter", .str d => (t.put { o with delim := some d }, [])
+    | "prefix_map", .dict items => (t, checkLookup idx o "prefix_map" items (fun r => r.allP) (fun recs k => (Spec.ownerP recs k).map (·.uri)))
+    | "synonym_to_prefix", .dict items => (t, checkLookup idx o "synonym_to_prefix" items (fun r => r.allP) (fun recs k => (Spec.ownerP recs k).map (·.pfx)))
+    | "reverse_prefix_map", .dict items => (t, checkLookup idx o "reverse_prefix_map" items (fun r => r.allU) (fun recs k => (Spec.ownerU recs k).map (·.pfx)))
+    | "pattern_map", .dict items => (t, checkLookup idx o "pattern_map" items
+        (fun r => if r.truePattern.isSome then [r.pfx] else []) Spec.patternOf)
     | _, _ =>
       match o.recs, o.delim with
       | some recs, some d =>
